@@ -643,11 +643,398 @@ static std::string candstr(const Cand &c) { return (c.dirty ? "mode=dirty;" : ""
 static bool g_poisoned = false;  // child-local; never set: with ASan a memory error kills the child at once (a non-fatal failure leaves the heap intact)
 static bool g_silenced = false;
 
+// ====================================================================== family "ovl"
+// Overlapping handles on ONE file inside one process: up to 3 CheckpointFile slots plus derived objects
+// (CheckpointReader / CheckpointWriter / CptTable) that outlive their CheckpointFile.  libhdf5 shares one
+// file object (one set of access flags, weak close degree) between all of them, so what a handle may do
+// must follow from the level it was opened with, not from what else is open.
+//   O:s:L   open slot s (empty) with level C|M|R            X:s   destroy the CheckpointFile in slot s
+//   K:s:k   take a reader (r) / writer (w) on "/" or the CptTable /a:x (t) from slot s, then destroy the
+//           CheckpointFile: the derived object outlives it (kept until the end, at most 2)
+//   W:s:t:v getWriter + write value v to target t through slot s      R:s:t  getReader + read target t
+//   V:t:v   write through the first kept writer                      Q:t    read through the first kept reader
+// targets: x = /:x (Index i7|im1), y = /:y (vector<double> vd3|vd3b), ax = /a:x (table t2|t2b): one kind and
+// shape per name, so that the known overwrite defects of the main family stay out of the way.
+struct OOp { char kind; int slot; char arg; int tgt; int val; };
+static const char *OT_NAME[3] = {"x", "y", "ax"};
+static const char *OT_PATH[3] = {"/", "/", "/a"};
+static const char *OT_LEAF[3] = {"x", "y", "x"};
+static std::string oopstr(const OOp &o) {
+  std::string s(1, o.kind);
+  switch (o.kind) {
+    case 'O': case 'K': return s + ":" + std::to_string(o.slot) + ":" + o.arg;
+    case 'X': return s + ":" + std::to_string(o.slot);
+    case 'W': return s + ":" + std::to_string(o.slot) + ":" + OT_NAME[o.tgt] + ":" + ALPHA[o.val].label;
+    case 'R': return s + ":" + std::to_string(o.slot) + ":" + OT_NAME[o.tgt];
+    case 'V': return s + ":" + OT_NAME[o.tgt] + ":" + ALPHA[o.val].label;
+    default: return s + ":" + OT_NAME[o.tgt];  // Q
+  }
+}
+static std::string ohiststr(int nslots, const std::vector<OOp> &ops) {
+  std::string s = "fam=ovl;slots=" + std::to_string(nslots) + ";ops=";
+  for (size_t k = 0; k < ops.size(); k++) s += (k ? "," : "") + oopstr(ops[k]);
+  return s;
+}
+static int otgt(const std::string &n) { return n == "x" ? 0 : (n == "y" ? 1 : (n == "ax" ? 2 : -1)); }
+static bool parse_ohist(const std::string &cas, int &nslots, std::vector<OOp> &ops) {
+  auto m = bsx::kvs(cas);
+  nslots = atoi(m["slots"].c_str());
+  if (nslots < 1 || nslots > 3) return false;
+  ops.clear();
+  if (m["ops"].empty()) return true;
+  for (auto &t : bsx::split(m["ops"], ',')) {
+    auto f = bsx::split(t, ':');
+    OOp o{}; o.kind = f[0][0];
+    auto need = [&](size_t n) { return f.size() == n; };
+    switch (o.kind) {
+      case 'O': case 'K': if (!need(3)) return false; o.slot = atoi(f[1].c_str()); o.arg = f[2][0]; break;
+      case 'X': if (!need(2)) return false; o.slot = atoi(f[1].c_str()); break;
+      case 'W': if (!need(4) || !BYLABEL.count(f[3])) return false; o.slot = atoi(f[1].c_str()); o.tgt = otgt(f[2]); o.val = BYLABEL[f[3]]; break;
+      case 'R': if (!need(3)) return false; o.slot = atoi(f[1].c_str()); o.tgt = otgt(f[2]); break;
+      case 'V': if (!need(3) || !BYLABEL.count(f[2])) return false; o.tgt = otgt(f[1]); o.val = BYLABEL[f[2]]; break;
+      case 'Q': if (!need(2)) return false; o.tgt = otgt(f[1]); break;
+      default: return false;
+    }
+    if (o.slot < 0 || o.slot >= nslots || o.tgt < 0) return false;
+    ops.push_back(o);
+  }
+  return true;
+}
+
+struct OModel {
+  char slot[3] = {'-', '-', '-'};
+  std::vector<std::string> kept;  // kind + level of the slot it came from, e.g. "rM"
+  char gen = '-';                 // level of the open that created the file object shared by everything alive now
+  bool exists = false, ga = false;
+  std::map<int, int> content;     // target -> alphabet index
+  bool alive() const { return slot[0] != '-' || slot[1] != '-' || slot[2] != '-' || !kept.empty(); }
+  std::string aux() const { std::string s = "slots=" + std::string(slot, 3) + ";kept="; for (auto &k : kept) s += k[0]; return s; }
+  std::string key() const {
+    std::string sl(slot, 3); std::sort(sl.begin(), sl.end());
+    std::vector<std::string> k = kept; std::sort(k.begin(), k.end());
+    std::string s = "ovl:" + sl + "|" + gen + "|";
+    for (auto &x : k) s += x + ",";
+    s += std::string("|") + (exists ? "E" : "-") + (ga ? "a" : "-");
+    for (auto &kv : content) s += std::string(";") + OT_NAME[kv.first] + "=" + ALPHA[kv.second].label;
+    return s;
+  }
+};
+
+// read target t through a reader positioned on OT_PATH[t] and compare with the model; "" = fine
+template <class GetReader> static std::string ovl_read(GetReader getr, const OModel &M, int t, std::string &sym) {
+  auto it = M.content.find(t);
+  std::string where = std::string(OT_PATH[t]) + ":" + OT_LEAF[t];
+  if (it == M.content.end()) {
+    static const Kind rep[] = {IDX, VDBL, VV3D, TBL};
+    for (Kind k : rep) {
+      bool threw = false; std::string got;
+      try { CheckpointReader r = getr(); got = read_canon(r, k, OT_LEAF[t], false); } catch (const std::exception &) { threw = true; }
+      if (!threw) { sym = std::string("never-written-read-succeeds-") + kindname[k]; return "reading never-written " + where + " as " + kindname[k] + " returned " + clip(got); }
+    }
+    return "";
+  }
+  const Val &v = ALPHA[it->second];
+  std::string expect = canon(v), got;
+  try { CheckpointReader r = getr(); got = read_canon(r, v.kind, OT_LEAF[t], false); } catch (const std::exception &e) { got = std::string("EXCEPTION ") + e.what(); }
+  if (got != expect) { sym = "mismatch"; return where + " (" + v.label + ") read back " + clip(got) + " expected " + clip(expect); }
+  return "";
+}
+
+// On failure key = final class key (the predicate only needs the op at hand and the model, both intact here:
+// a memory error kills the child before it gets that far and is keyed by the parent from the step marker).
+static bsx::Outcome run_overlap(int nslots, const std::vector<OOp> &ops, const std::string &file) {
+  bsx::Outcome o;
+  std::string cas = ohiststr(nslots, ops);
+  auto failwith = [&](const std::string &key, const std::string &what) {
+    o.ok = false; o.key = key; o.what = what + "  [" + cas + "]";
+    return o;
+  };
+  H5::Exception::dontPrint();
+  ::remove(file.c_str());
+  OModel M;
+  {
+    std::unique_ptr<CheckpointFile> H[3];
+    std::vector<std::unique_ptr<CheckpointReader>> keptR;
+    std::vector<std::unique_ptr<CheckpointWriter>> keptW;
+    std::vector<std::unique_ptr<CptTable>> keptT;
+    auto lvname = [](char c) { return std::string(c == 'R' ? "READ" : (c == 'M' ? "MODIFY" : "CREATE")); };
+    auto others = [&](const OModel &m) {  // what else shares the file object, for the message
+      std::string s;
+      for (int k = 0; k < 3; k++) if (m.slot[k] != '-') s += m.slot[k];
+      for (auto &k : m.kept) s += std::string(" kept:") + k;
+      return s.empty() ? std::string("nothing") : s;
+    };
+    try {
+      for (size_t st = 0; st < ops.size(); st++) {
+        const OOp &op = ops[st];
+        mark((int)st);
+        char L = op.kind == 'V' || op.kind == 'Q' ? '-' : M.slot[op.slot];
+        bool writable_elsewhere = M.gen == 'C' || M.gen == 'M';
+        switch (op.kind) {
+          case 'O': {
+            if (L != '-') return failwith("harness-op-not-applicable", "open on an occupied slot");
+            bool oth = M.alive(), threw = false; std::string msg;
+            try { H[op.slot].reset(new CheckpointFile(file, lvl(op.arg))); } catch (const std::exception &e) { threw = true; msg = e.what(); }
+            if (threw) {
+              if (op.arg == 'R' && !M.exists) break;  // required: nothing to read
+              if (oth) break;                          // allowed: libhdf5 refuses e.g. truncating / upgrading a file that is open
+              return failwith(std::string("ovl-open-") + op.arg + "-rejected-nothing-else-open", "opening with " + lvname(op.arg) + " threw although nothing is open: " + clip(msg));
+            }
+            if (op.arg == 'R' && !M.exists) return failwith("open-read-missing-file-accepted", "READ open of a file that does not exist succeeded");
+            M.slot[op.slot] = op.arg;
+            if (!oth) M.gen = op.arg;
+            if (op.arg == 'C' || !M.exists) { M.content.clear(); M.ga = false; M.exists = true; }
+            break;
+          }
+          case 'X': {
+            if (L == '-') return failwith("harness-op-not-applicable", "close of an empty slot");
+            H[op.slot].reset();
+            M.slot[op.slot] = '-';
+            if (!M.alive()) M.gen = '-';
+            break;
+          }
+          case 'K': {
+            if (L == '-' || M.kept.size() >= 2) return failwith("harness-op-not-applicable", "keep");
+            bool kept = false, threw = false; std::string msg;
+            try {
+              if (op.arg == 'r') keptR.emplace_back(new CheckpointReader(H[op.slot]->getReader("/")));
+              else if (op.arg == 'w') keptW.emplace_back(new CheckpointWriter(H[op.slot]->getWriter("/")));
+              else { CheckpointReader r = H[op.slot]->getReader("/a"); keptT.emplace_back(new CptTable(r.openTable<StaticSite>("x"))); }
+              kept = true;
+            } catch (const std::exception &e) { threw = true; msg = e.what(); }
+            if (op.arg == 'w' && L == 'R') {
+              if (!threw) return failwith(writable_elsewhere ? "readonly-getwriter-accepted-while-file-open-writable" : "readonly-getwriter-accepted",
+                                          "getWriter(\"/\") on a READ handle did not throw (also open on the file: " + others(M) + ")");
+            } else if (op.arg == 't' && !M.content.count(2)) {
+              if (!threw) return failwith("never-written-table-opens", "openTable on /a:x succeeded although no table was written");
+            } else if (threw) {
+              return failwith(std::string("ovl-derived-object-rejected-") + op.arg + "-" + L, std::string("taking a ") + (op.arg == 'r' ? "reader" : op.arg == 'w' ? "writer" : "table") +
+                                                                                                  " from a " + lvname(L) + " handle threw: " + clip(msg));
+            }
+            if (kept) M.kept.push_back(std::string(1, op.arg) + L);
+            H[op.slot].reset();  // the derived object outlives its CheckpointFile
+            M.slot[op.slot] = '-';
+            if (!M.alive()) M.gen = '-';
+            break;
+          }
+          case 'W': {
+            if (L == '-') return failwith("harness-op-not-applicable", "write through an empty slot");
+            const Val &v = ALPHA[op.val];
+            if (L == 'R') {
+              bool threw = false, wrote = false;
+              try {
+                CheckpointWriter w = H[op.slot]->getWriter(OT_PATH[op.tgt]);
+                try { write_val(w, v, OT_LEAF[op.tgt]); wrote = true; } catch (const std::exception &) {}
+              } catch (const std::exception &) { threw = true; }
+              if (!threw)
+                return failwith(writable_elsewhere ? "readonly-getwriter-accepted-while-file-open-writable" : "readonly-getwriter-accepted",
+                                std::string("getWriter(\"") + OT_PATH[op.tgt] + "\") on a READ handle did not throw (also open on the file: " + others(M) + "); the write of " + v.label +
+                                    (wrote ? " went through" : " was then refused by libhdf5"));
+              break;  // model unchanged; the fresh handle at the end verifies it
+            }
+            try {
+              CheckpointWriter w = H[op.slot]->getWriter(OT_PATH[op.tgt]);
+              if (op.tgt == 2) M.ga = true;
+              write_val(w, v, OT_LEAF[op.tgt]);
+              M.content[op.tgt] = op.val;
+            } catch (const std::exception &e) {
+              return failwith(std::string("ovl-write-rejected-") + L, "write of " + v.label + " to " + OT_PATH[op.tgt] + ":" + OT_LEAF[op.tgt] + " through a " + lvname(L) +
+                                                                         " handle was rejected (also open: " + others(M) + "): " + clip(e.what()));
+            }
+            break;
+          }
+          case 'R': {
+            if (L == '-') return failwith("harness-op-not-applicable", "read through an empty slot");
+            std::string sym;
+            if (op.tgt == 2 && !M.ga) {
+              bool threw = false;
+              try { CheckpointReader r = H[op.slot]->getReader("/a"); } catch (const std::exception &) { threw = true; }
+              if (!threw) return failwith("never-created-group-opens", "group /a was never written but opens");
+              break;
+            }
+            std::string e = ovl_read([&]() { return H[op.slot]->getReader(OT_PATH[op.tgt]); }, M, op.tgt, sym);
+            if (!e.empty()) return failwith(sym == "mismatch" ? std::string("ovl-read-through-") + L + "-handle-differs" : sym, "through a " + lvname(L) + " handle (also open: " + others(M) + "): " + e);
+            break;
+          }
+          case 'V': {
+            if (keptW.empty() || op.tgt == 2) return failwith("harness-op-not-applicable", "no kept writer");
+            const Val &v = ALPHA[op.val];
+            try { write_val(*keptW[0], v, OT_LEAF[op.tgt]); M.content[op.tgt] = op.val; }
+            catch (const std::exception &) {}  // allowed: a writer that outlived its file may be refused, then nothing changes
+            break;
+          }
+          case 'Q': {
+            if (keptR.empty() || op.tgt == 2) return failwith("harness-op-not-applicable", "no kept reader");
+            std::string sym;
+            std::string e = ovl_read([&]() { return *keptR[0]; }, M, op.tgt, sym);
+            if (!e.empty()) return failwith(sym == "mismatch" ? "ovl-read-through-kept-reader-differs" : sym, "through a reader that outlived its CheckpointFile: " + e);
+            break;
+          }
+          default: return failwith("harness-op-not-applicable", "op");
+        }
+      }
+      mark(900);
+      for (int k = 0; k < 3; k++) H[k].reset();
+      keptT.clear(); keptW.clear(); keptR.clear();
+    } catch (const std::exception &e) {
+      return failwith("unexpected-exception", std::string("exception outside any checked call: ") + e.what());
+    }
+  }
+  // everything released: a fresh READ handle shows what the file holds
+  mark(950);
+  std::string lastk = ops.empty() ? "start" : std::string(1, ops.back().kind);
+  try {
+    if (!M.exists) {
+      bool threw = false;
+      try { CheckpointFile f(file, CheckpointAccessLevel::READ); } catch (const std::exception &) { threw = true; }
+      if (!threw) return failwith("open-read-missing-file-accepted", "READ open of a file that was never created succeeded");
+    } else {
+      CheckpointFile fresh(file, CheckpointAccessLevel::READ);
+      for (int t = 0; t < 3; t++) {
+        mark(960 + t);
+        if (t == 2 && !M.ga) {
+          bool threw = false;
+          try { CheckpointReader r = fresh.getReader("/a"); } catch (const std::exception &) { threw = true; }
+          if (!threw) return failwith("never-created-group-opens", "group /a was never written but opens");
+          continue;
+        }
+        std::string sym;
+        std::string e = ovl_read([&]() { return fresh.getReader(OT_PATH[t]); }, M, t, sym);
+        if (!e.empty()) return failwith(sym == "mismatch" ? "ovl-final-content-differs-after-" + lastk : sym + "-after-" + lastk, "fresh READ handle after everything was released: " + e);
+      }
+    }
+  } catch (const std::exception &e) {
+    return failwith("ovl-final-open-rejected-after-" + lastk, std::string("fresh READ handle after everything was released: ") + e.what());
+  }
+  ::remove(file.c_str());
+  o.extra = M.key();
+  o.what = M.aux();
+  o.cls = bsx::fnv(o.extra);
+  return o;
+}
+static std::string ovl_fatal_key(const std::vector<OOp> &ops, int step) {
+  if (step >= 950) return "ovl-crash-in-final-read";
+  if (step == 900) return "ovl-crash-releasing-handles";
+  if (step >= 0 && step < (int)ops.size()) return std::string("ovl-crash-in-op-") + ops[step].kind;
+  return "ovl-crash-outside-ops";
+}
+
+struct OCand { std::vector<OOp> ops; std::string aux; };
+static int main_overlap(bsx::Args &a) {
+  if (a.has_case) {
+    int ns; std::vector<OOp> ops;
+    if (!parse_ohist(a.cas, ns, ops)) { fprintf(stderr, "bad case string\n"); return 2; }
+    bsx::Outcome o;
+    *g_step = -2;
+    bsx::contained(0, 1, [&](long long) { return run_overlap(ns, ops, "case.h5"); }, [&](long long, const bsx::Outcome &r) { o = r; });
+    ::remove("case.h5");
+    if (o.ok) { printf("case holds\n"); return 0; }
+    if (o.key == "fatal") { o.key = ovl_fatal_key(ops, *g_step); o.what += " at step marker " + std::to_string(*g_step); }
+    printf("case FAILS: key=%s %s\n", o.key.c_str(), o.what.c_str());
+    return 3;
+  }
+  bsx::Report R;
+  R.property = "C17"; R.part = "ovl"; R.tier = a.tier;
+  bool thorough = a.tier == "thorough";
+  const int nslots = thorough ? 3 : 2, maxdepth = thorough ? 5 : 4;
+  const int VX[2] = {BYLABEL.at("i7"), BYLABEL.at("im1")}, VY[2] = {BYLABEL.at("vd3"), BYLABEL.at("vd3b")}, VA[2] = {BYLABEL.at("t2"), BYLABEL.at("t2b")};
+  auto vals = [&](int t) { return t == 0 ? VX : (t == 1 ? VY : VA); };
+  R.rule = "explicit-state BFS over op histories on ONE HDF5 file shared by " + std::to_string(nslots) + " CheckpointFile slots inside one process (own file per history, forked children, ASan/UBSan): "
+           "open slot with CREATE|MODIFY|READ (lowest empty slot; slots are interchangeable), destroy slot, take a reader/writer/CptTable from a slot and destroy its CheckpointFile so that the derived "
+           "object outlives it (at most 2 kept), getWriter+write / getReader+read through a slot, write/read through a kept writer/reader; targets /:x (Index i7|im1), /:y (vector<double> vd3|vd3b), "
+           "/a:x (CptTable t2|t2b); all histories of length <= " + std::to_string(maxdepth) + " from the state 'no file, nothing open', every applicable op after every distinct state. "
+           "Oracle: reference model; getWriter on a READ-level slot must throw whatever else is open and must not change the content; writes through CREATE/MODIFY slots must succeed and are what "
+           "any slot, any kept reader and (after everything is released) a fresh READ handle read back bit-identically, last write wins; never-written names/groups raise; an open that libhdf5 "
+           "refuses while something else is open on the file, and a write through a writer that outlived its file, may throw (then nothing changes). state = sorted slot levels + level that "
+           "created the shared file object + kept objects + content; distinct_nontrivial = distinct states reached";
+
+  // applicable ops in a state described by aux = "slots=M-R;kept=rw"
+  auto expand = [&](const OCand &c) {
+    std::vector<OOp> r;
+    auto m = bsx::kvs(c.aux);
+    std::string sl = m["slots"], kp = m["kept"];
+    if (sl.size() != 3) sl = "---";
+    int lowest_empty = -1;
+    for (int s = 0; s < nslots; s++) if (sl[s] == '-') { lowest_empty = s; break; }
+    if (lowest_empty >= 0) for (char L : {'C', 'M', 'R'}) r.push_back({'O', lowest_empty, L, 0, 0});
+    for (int s = 0; s < nslots; s++) {
+      if (sl[s] == '-') continue;
+      r.push_back({'X', s, 0, 0, 0});
+      if (kp.size() < 2) for (char k : {'r', 'w', 't'}) r.push_back({'K', s, k, 0, 0});
+      for (int t = 0; t < 3; t++) { for (int j = 0; j < 2; j++) r.push_back({'W', s, 0, t, vals(t)[j]}); r.push_back({'R', s, 0, t, 0}); }
+    }
+    if (kp.find('w') != std::string::npos) for (int t = 0; t < 2; t++) for (int j = 0; j < 2; j++) r.push_back({'V', 0, 0, t, vals(t)[j]});
+    if (kp.find('r') != std::string::npos) for (int t = 0; t < 2; t++) r.push_back({'Q', 0, 0, t, 0});
+    return r;
+  };
+
+  long long states = 0, transitions = 0;
+  std::set<std::string> seen;
+  std::vector<OCand> frontier;
+  {  // depth 0: every shard learns the initial state, shard 0 counts it
+    bsx::Outcome o;
+    bsx::contained(0, 1, [&](long long) { return run_overlap(nslots, {}, "o0.h5"); }, [&](long long, const bsx::Outcome &r) { o = r; });
+    if (!o.ok) { R.fail(o.key, o.what, ohiststr(nslots, {})); }
+    else { seen.insert(o.extra); frontier.push_back({{}, o.what}); if (a.shard == 0) { R.eval(); transitions++; states++; R.cls(o.cls); } }
+  }
+  for (int depth = 1; depth <= maxdepth && !frontier.empty(); depth++) {
+    std::vector<OCand> cand, next;
+    for (auto &c : frontier) for (auto &op : expand(c)) { OCand n{c.ops, ""}; n.ops.push_back(op); cand.push_back(n); }
+    // sharding by the hash of the first two ops (depth 1 is evaluated by every shard, counted by shard 0)
+    if (depth >= 2) {
+      std::vector<OCand> mine;
+      for (auto &c : cand) if (a.mine((long long)(bsx::fnv(oopstr(c.ops[0]) + oopstr(c.ops[1])) % 1000003ull))) mine.push_back(c);
+      cand.swap(mine);
+    }
+    bool count = depth >= 2 || a.shard == 0;
+    const long long n = (long long)cand.size(), BATCH = 256;
+    for (long long pos = 0; pos < n; pos += BATCH) {
+      long long hi = std::min(n, pos + BATCH);
+      bsx::contained(
+          pos, hi,
+          [&](long long i) {
+            if (!g_silenced) { g_silenced = true; int fd = open("/dev/null", O_WRONLY); if (fd >= 0) { dup2(fd, 2); close(fd); } }
+            *g_step = -2;
+            return run_overlap(nslots, cand[i].ops, "o" + std::to_string(depth) + "_" + std::to_string(i) + ".h5");
+          },
+          [&](long long i, const bsx::Outcome &res) {
+            bsx::Outcome o = res;
+            if (count) { R.eval(); transitions++; }
+            std::string cas = ohiststr(nslots, cand[i].ops);
+            if (!o.ok) {
+              ::remove(("o" + std::to_string(depth) + "_" + std::to_string(i) + ".h5").c_str());
+              if (o.key == "fatal") { o.key = ovl_fatal_key(cand[i].ops, *g_step); o.what += " at step marker " + std::to_string(*g_step) + "  [" + cas + "]"; R.counters["children_killed_by_sanitizer_or_signal"]++; }
+              if (count) { R.fail(o.key, o.what, cas); R.counters["failing_histories"]++; }
+              return;
+            }
+            if (seen.insert(o.extra).second) {
+              if (count) { states++; R.cls(o.cls); }
+              next.push_back({cand[i].ops, o.what});
+              if (count && (states % 53) == 7) R.sample(cas + " -> state " + o.extra);
+            }
+          },
+          60);
+    }
+    R.counters["depth" + std::to_string(depth) + "_histories"] += count ? n : 0;
+    frontier.swap(next);
+  }
+  R.states = states; R.transitions = transitions; R.traces = transitions;
+  R.assumptions = {
+      "libhdf5 keeps ONE file object per file and process: a CheckpointFile constructor that throws while anything else is open on the file is an allowed refusal (model unchanged)",
+      "a CheckpointWriter that outlived its CheckpointFile may refuse to write (model unchanged); if it does not throw the value must be stored",
+      "one kind and shape per target name, so that the known overwrite defects (main family) do not mask this family",
+      "slots are interchangeable: a new handle always goes to the lowest empty slot, states are keyed by the sorted slot levels",
+      "states are de-duplicated per shard; distinct_nontrivial is exact"};
+  if (!R.write(a.out)) { fprintf(stderr, "cannot write %s\n", a.out.c_str()); return 2; }
+  return 0;
+}
+
 int main(int argc, char **argv) {
   build_alphabet();
   bsx::Args a = bsx::parse(argc, argv);
   g_step = (volatile int *)mmap(nullptr, 4096, PROT_READ | PROT_WRITE, MAP_SHARED | MAP_ANONYMOUS, -1, 0);
   if (g_step == MAP_FAILED) { perror("mmap"); return 2; }
+  if (a.kv["family"] == "overlap" || (a.has_case && a.cas.rfind("fam=ovl", 0) == 0)) return main_overlap(a);
   if (a.kv.count("bench")) {  // timing aid: --bench N --hist "<case>"
     Cand c; parse_hist(a.kv["hist"], c.init, c.ops);
     int n = atoi(a.kv["bench"].c_str());
